@@ -1,4 +1,85 @@
 (* C20 — Parsing is total, positioned, and lax mode accepts everything strict mode does.
-   Property theorems only. *)
+   Property theorems only; each is closed by [exact] of a lemma proved in Modfile/Proofs*.v.
+
+   Vocabulary (Modfile/Lex.v, Parse.v, ProofsLex.v, ProofsParse.v):
+   [parse data] is the model of modfile's syntax-only parser: POk tree | PErrs [(pos, class)]
+   | PPanic (any recovered non-parse-error panic and the "internal error" calls of the Go
+   code) | POutOfFuel (the model's recursion budget).
+   [at_pos data rest p]: reading data rune by rune from the start (utf8.DecodeRune; an invalid
+   byte is one rune), the suffix [rest] is reached at position p, where p's line is 1 + the
+   number of LF read, its column 1 + the number of runes read since the last LF and its byte
+   offset the number of bytes read.  [valid_pos data p] = exists rest, at_pos data rest p.
+   [at_text data p txt]: p is such a position and the input continues there with txt. *)
 From Verif.Base Require Import Bytes.
-From Verif.Modfile Require Import Syntax Lex Parse.
+From Verif.Modfile Require Import Syntax Lex Parse ProofsLex ProofsParse.
+
+(* the model never runs out of its recursion budget *)
+Theorem C20_parse_fuel_enough : forall data, parse data <> POutOfFuel.
+Proof. exact parse_fuel_enough. Qed.
+Print Assumptions C20_parse_fuel_enough.
+
+(* no index fault, no "internal error": the result is a tree or a non-empty error list *)
+Theorem C20_parse_no_internal_error : forall data, parse data <> PPanic.
+Proof. exact parse_no_internal_error. Qed.
+Print Assumptions C20_parse_no_internal_error.
+
+Theorem C20_parse_tree_or_errors : forall data,
+  (exists s, parse data = POk s) \/ (exists l, parse data = PErrs l /\ l <> []).
+Proof.
+  intros data. pose proof (parse_good_thm data) as H.
+  destruct (parse data) as [s|l| |]; cbn in H; try contradiction; [left; eauto|right; exists l; tauto].
+Qed.
+Print Assumptions C20_parse_tree_or_errors.
+
+(* the lexer state invariant behind the position theorems: in.pos is the position of
+   in.remaining, and consumed ++ remaining is the input; it holds initially and readRune
+   preserves it *)
+Theorem C20_lexer_state_invariant : forall data,
+  linv data (init_state data) /\
+  (forall st r st', linv data st -> read_rune st = Some (r, st') -> linv data st').
+Proof.
+  intros data. split; [apply linv_init|]. intros st r st' Hi Hr.
+  exact (proj1 (read_rune_spec data st r st' Hi Hr)).
+Qed.
+Print Assumptions C20_lexer_state_invariant.
+
+(* a position of the input is determined by its byte offset, its byte offset is the length
+   of the input before it, and its line is 1 + the number of LF bytes before it *)
+Theorem C20_position_of_offset : forall data p,
+  valid_pos data p ->
+  (forall p', valid_pos data p' -> p_byte p' = p_byte p -> p' = p) /\
+  0 <= p_byte p <= len data /\
+  p_line p = 1 + count_lf (firstn (Z.to_nat (p_byte p)) data).
+Proof.
+  intros data p (rest & H). split; [|split].
+  - intros p' H' E. eapply valid_pos_unique; eauto. exists rest. exact H.
+  - destruct (at_pos_split _ _ _ H) as (pre & -> & ->). unfold len. rewrite app_length. lia.
+  - eapply at_pos_line; eauto.
+Qed.
+Print Assumptions C20_position_of_offset.
+
+(* positions_consistent: every position in the tree is a position of the input and points
+   at what it describes — Line.Start and LineBlock.Start at the first token, LParen.Pos at
+   "(", RParen.Pos at ")", every Comment.Start at the comment's text (the blank-line marker
+   Comment{} excepted), Line.End and CommentBlock.Start at positions of the input — and so
+   is every error position.  ([file_ok] is spelled out in ProofsParse.v.) *)
+Theorem C20_positions_consistent : forall data,
+  match parse data with
+  | POk s => file_ok data s
+  | PErrs l => Forall (fun pe => valid_pos data (fst pe)) l
+  | PPanic | POutOfFuel => False
+  end.
+Proof.
+  intros data. pose proof (parse_good_thm data) as H.
+  destruct (parse data); cbn in H; try contradiction; [exact H|apply H].
+Qed.
+Print Assumptions C20_positions_consistent.
+
+(* non-vacuity: a file with a block, comments and a suffix comment satisfies the invariant *)
+Example C20_positions_example :
+  exists s, parse (B "// c
+require ( // s
+	a v1 // t
+)
+") = POk s /\ length (f_stmt s) = 1%nat.
+Proof. eexists. split; [vm_compute; reflexivity|reflexivity]. Qed.
